@@ -27,6 +27,7 @@ C02(o) ==
 \* C15
 C15(o) == (IF ~o.hashStable THEN {"hash-changes-with-arrangement-or-round"} ELSE {})
           \cup (IF Len(o.hashes) # 1 THEN {"not-exactly-one-hash"} ELSE {})
+          \cup (IF ~o.collapsed THEN {"equal-entries-do-not-collapse"} ELSE {})
 C15G(g) == CASE g.kind = "key"  -> IF Len(g.members) # 1 THEN {"same-identity-different-hashes"} ELSE {}
              [] g.kind = "hash" -> IF Len(g.members) # 1 THEN {"different-identities-same-hash"} ELSE {}
 
